@@ -20,6 +20,7 @@ import (
 func Normalize(p *core.Program) {
 	curProg = p
 	normalizeMonitors(p)
+	normalizeValueMethods(p)
 	normalizeConstReceivers(p)
 	normalizeLocalArrays(p)
 	for _, fi := range p.Funcs {
